@@ -430,6 +430,9 @@ impl Formatter for DefaultFormatter {}
 #[derive(Clone, Debug)]
 pub struct CustomizedFormatter {
     options: Options,
+    // Set while a byte vector is being written; its closing delimiter does
+    // not depend on the notation used for generic vectors.
+    in_byte_vector: bool,
 }
 
 impl Formatter for CustomizedFormatter {
@@ -479,16 +482,24 @@ impl Formatter for CustomizedFormatter {
     where
         W: io::Write + ?Sized,
     {
-        match self.options.vector_syntax {
-            VectorSyntax::Brackets => writer.write_all(b"["),
-            VectorSyntax::Octothorpe => match kind {
-                VectorType::Generic => writer.write_all(b"#("),
-                VectorType::Byte => match self.options.bytes_syntax {
+        match kind {
+            VectorType::Generic => {
+                self.in_byte_vector = false;
+                match self.options.vector_syntax {
+                    VectorSyntax::Brackets => writer.write_all(b"["),
+                    VectorSyntax::Octothorpe => writer.write_all(b"#("),
+                }
+            }
+            // A byte vector has its own notation; written with brackets it
+            // would read back as a vector of numbers.
+            VectorType::Byte => {
+                self.in_byte_vector = true;
+                match self.options.bytes_syntax {
                     BytesSyntax::R6RS => writer.write_all(b"#vu8("),
                     BytesSyntax::R7RS => writer.write_all(b"#u8("),
                     _ => panic!("invalid combination of VectorSyntax and BytesSyntax"),
-                },
-            },
+                }
+            }
         }
     }
 
@@ -496,6 +507,9 @@ impl Formatter for CustomizedFormatter {
     where
         W: io::Write + ?Sized,
     {
+        if std::mem::replace(&mut self.in_byte_vector, false) {
+            return writer.write_all(b")");
+        }
         match self.options.vector_syntax {
             VectorSyntax::Brackets => writer.write_all(b"]"),
             VectorSyntax::Octothorpe => writer.write_all(b")"),
@@ -570,7 +584,10 @@ where
     pub fn with_options(writer: W, options: Options) -> Self {
         Printer {
             writer,
-            formatter: CustomizedFormatter { options },
+            formatter: CustomizedFormatter {
+                options,
+                in_byte_vector: false,
+            },
         }
     }
 }
